@@ -612,7 +612,7 @@ func nativeReplay(repo, hdir, id string, R *Results, tier int) replayResult {
 	if len(vf.Vectors) == 0 {
 		return rr
 	}
-	results, err := runNative(repo, hdir, vf, 4)
+	results, err := runNative(repo, hdir, vf, 9)
 	if err != nil {
 		rr.problems = append(rr.problems, "native replay failed: "+err.Error())
 		return rr
